@@ -23,7 +23,7 @@ from vf import fgen, genmodels, layout, site  # noqa: E402
 from vf.fgen import Unit, Proc  # noqa: E402
 
 PID = "C05"
-DISPLAYS = [["public"], ["public", "protected"], ["public", "private"], ["public", "protected", "private"], ["none"]]
+DISPLAYS = [["public"], ["public", "protected"], ["public", "private"], ["public", "protected", "private"], ["none"], ["private"], ["protected", "private"], ["public"]]
 WORD_RE = re.compile(r"zq\d+w\d+x\d+")
 
 
@@ -75,9 +75,11 @@ def plan(files, rng, project_display, proc_internals, hide_undoc, pulled):
 
     cur = {"file_override": False}
 
-    def ent(path, doc, verdict, kind, page=None, parent_page=None):
+    tinfo = {}  # type name -> visibility, effective display, parent type
+
+    def ent(path, doc, verdict, kind, page=None, parent_page=None, **extra):
         E.append({"path": path, "words": words_of(doc), "verdict": verdict, "kind": kind, "page": page, "parent_page": parent_page,
-                  "file_override": cur["file_override"]})
+                  "file_override": cur["file_override"], **extra})
 
     def do_type(t, path, access_default, cont_display, parent_visible, parent_page, module_level, stmt_access):
         acc = t.access or stmt_access.get(t.name.lower()) or access_default
@@ -93,14 +95,16 @@ def plan(files, rng, project_display, proc_internals, hide_undoc, pulled):
         if t.name.lower() in pulled["extended_types"] and not vis:
             verdict = "either"
         ent(path + "/type:" + t.name, t.doc, verdict, "type", page if vis else None, parent_page)
+        tinfo[t.name.lower()] = {"vis": vis, "tdisp": tdisp, "extends": (t.extends or "").lower()}
         cdef = "private" if t.private_components else "public"
         for c in t.components:
             cacc = c.access or cdef
             cv = vis and sel.shown(cacc, tdisp, c.doc)
             v = "show" if cv else "hide"
             if t.name.lower() in pulled["extended_types"] and not cv:
-                v = "either"  # inherited public components are rendered with the extending type
-            ent(path + f"/type:{t.name}/component:{c.name}", c.doc, v, "component", None, page if (vis and page) else parent_page)
+                v = "either"  # inherited public components are rendered with the extending type: refined after the walk
+            ent(path + f"/type:{t.name}/component:{c.name}", c.doc, v, "component", None, page if (vis and page) else parent_page,
+                inherit=(t.name.lower(), cacc, bool(words_of(c.doc))))
         bdef = "private" if t.private_bindings else "public"
         for b in t.bindings:
             bacc = b.access or bdef
@@ -201,6 +205,27 @@ def plan(files, rng, project_display, proc_internals, hide_undoc, pulled):
             for p in u.procs:
                 acc = (stmt_access.get(p.name.lower()) or dperm) if is_mod else "public"
                 do_proc(p, upath, acc, udisp, True, upage, is_mod or u.kind == "program" and False or is_mod)
+    # inherited components: a public component of P is listed with every type that extends P (transitively) and is then filtered by
+    # *that* type's display; if neither P nor any visible descendant selects it, it must be documented nowhere
+    def descendants(name):
+        out, todo = [], [name]
+        while todo:
+            n = todo.pop()
+            for k, i in tinfo.items():
+                if i["extends"] == n and k not in out:
+                    out.append(k)
+                    todo.append(k)
+        return out
+
+    for e in E:
+        inh = e.get("inherit")
+        if not inh or e["verdict"] != "either":
+            continue
+        tname, cacc, has_doc = inh
+        shown_below = cacc == "public" and any(tinfo[d]["vis"] and sel.shown("public", tinfo[d]["tdisp"], ["zq0w0x0"] if has_doc else []) for d in descendants(tname))
+        if not shown_below:
+            e["verdict"] = "hide"
+            e["inherited_case"] = True
     return sel
 
 
@@ -244,6 +269,64 @@ def neutralise(files):
     return pulled
 
 
+def separate_procs(sel, seed, project_display, proc_internals, hide_undoc):
+    """A hand-shaped extra file: module with separate-module-procedure interfaces, private entities that its documentation names in
+    [[...]] references, and a submodule with the three implementation spellings, each with documented internals."""
+    S = seed % 100000
+    k = [0]
+
+    def W():
+        k[0] += 1
+        return f"zq9{S:05d}w{k[0]}x0"
+
+    D = Sel.eff(project_display)
+    mod, sub = f"spm{S}", f"spi{S}"
+    E = sel.ents
+
+    def ent(path, words, verdict, kind, page=None, parent_page=None):
+        E.append({"path": path, "words": words, "verdict": verdict, "kind": kind, "page": page, "parent_page": parent_page, "file_override": False, "extra_unit": True})
+
+    L = [f"module {mod}"]
+    w = W()
+    L.append(f"!! {w} see [[spriv{S}]] and [[sptyp{S}]] and [[sppub{S}]]")
+    ent(f"file:sp/module:{mod}", [w], "show", "module", f"module/{mod}.html", None)
+    L += ["implicit none", f"private :: spriv{S}, sptyp{S}"]
+    w = W()
+    L += [f"type :: sptyp{S}", f"!! {w}", "integer :: c", f"end type sptyp{S}"]
+    ent(f"file:sp/module:{mod}/type:sptyp{S}", [w], "show" if "private" in D else "hide", "type", f"type/sptyp{S}.html" if "private" in D else None, f"module/{mod}.html")
+    L.append("interface")
+    impl = []
+    for nm, form in ((f"spa{S}", "subroutine"), (f"spb{S}", "procedure"), (f"spf{S}", "function")):
+        w = W()
+        if form == "function":
+            L += [f"module function {nm}(x) result(r)", f"!! {w}", "integer, intent(in) :: x", "integer :: r", "end function"]
+        else:
+            L += [f"module subroutine {nm}({'x' if form == 'subroutine' else ''})", f"!! {w}"] + (["integer, intent(in) :: x"] if form == "subroutine" else []) + ["end subroutine"]
+        ent(f"file:sp/module:{mod}/mpiface:{nm}", [w], "either", "mpiface")
+        wi, wl, wn = W(), W(), W()
+        head = {"subroutine": f"module subroutine {nm}(x)", "procedure": f"module procedure {nm}", "function": f"module function {nm}(x) result(r)"}[form]
+        impl += [head, f"!! {wi}"] + (["integer, intent(in) :: x"] if form != "procedure" else []) + (["integer :: r"] if form == "function" else [])
+        impl += [f"integer :: loc_{nm}", f"!! {wl}"] + (["r = x"] if form == "function" else []) + [f"call inner_{nm}()", "contains", f"subroutine inner_{nm}()", f"!! {wn}", f"end subroutine inner_{nm}"]
+        impl += [{"subroutine": f"end subroutine {nm}", "procedure": f"end procedure {nm}", "function": f"end function {nm}"}[form]]
+        ent(f"file:sp/submodule:{sub}/mpimpl:{nm}", [wi], "either", "mpimpl")
+        internals_may_show = proc_internals and "private" in D  # (entities inside a submodule inherit its private default)
+        ent(f"file:sp/submodule:{sub}/mpimpl:{nm}/variable:loc_{nm}", [wl], "either" if internals_may_show else "hide", "variable")
+        ent(f"file:sp/submodule:{sub}/mpimpl:{nm}/proc:inner_{nm}", [wn], "either" if internals_may_show else "hide", "proc_internal")
+    L.append("end interface")
+    L.append("contains")
+    w = W()
+    L += [f"subroutine spriv{S}()", f"!! {w}", f"end subroutine spriv{S}"]
+    ent(f"file:sp/module:{mod}/proc:spriv{S}", [w], "show" if "private" in D else "hide", "proc", f"proc/spriv{S}.html" if "private" in D else None, f"module/{mod}.html")
+    w = W()
+    L += [f"subroutine sppub{S}()", f"!! {w}", f"end subroutine sppub{S}"]
+    ent(f"file:sp/module:{mod}/proc:sppub{S}", [w], "show" if "public" in D else "hide", "proc", f"proc/sppub{S}.html" if "public" in D else None, f"module/{mod}.html")
+    L.append(f"end module {mod}")
+    w = W()
+    L += [f"submodule ({mod}) {sub}", f"!! {w}", "implicit none", "contains"] + impl + [f"end submodule {sub}"]
+    ent(f"file:sp/submodule:{sub}", [w], "either", "submodule")
+    return "\n".join(L) + "\n"
+
+
 def run_case(item):
     return site.run_in_process(item["root"])
 
@@ -269,6 +352,9 @@ def case(seed):
             t = layout.Layout(seed, plain=True).free(stmts)
             texts[f.name] = t
             open(os.path.join(src, f.name + ".f90"), "w").write(t)
+        if seed % 3 != 0:
+            texts["zz_separate"] = separate_procs(sel, seed, project_display, proc_internals, hide_undoc)
+            open(os.path.join(src, "zz_separate.f90"), "w").write(texts["zz_separate"])
         opts = {"project": f"P{seed}", "src_dir": "./src", "output_dir": "./doc", "preprocess": False, "parallel": 0, "graph": rng.random() < 0.25,
                 "search": True, "display": project_display, "proc_internals": proc_internals, "hide_undoc": hide_undoc, "incl_src": incl_src, "quiet": True}
         site.write_project_file(base, opts)
@@ -377,14 +463,14 @@ def main():
         PID,
         rule="case = generated program (default-public modules; types with components/bindings; generic/abstract/explicit interfaces; "
         "procedures with locals, local types and internal procedures; programs; external procedures; documented/undocumented mix) x project "
-        "display in {public; public,protected; public,private; all; none} x proc_internals x hide_undoc x incl_src, with display / "
+        "display in {public; public,protected; public,private; all; none; private; protected,private} x proc_internals x hide_undoc x incl_src, with display / "
         "proc_internals overrides placed in the metadata of files, modules, types and procedures. Each entity's unique tracer words are "
         "searched on every page (source listings excluded) and in every search record. Non-trivial: >=1 must-show and >=1 must-hide entity; "
         "distinct by sources + configuration.",
         assumptions=[
             "three-valued selection model: entities rendered as part of another selected entity (binding targets, generic specifics, finalisers, "
             "deferred prototypes, procedure-pointer interfaces, components/bindings of extended types) are 'either' and not judged",
-            "display sets always contain 'public' (or are 'none'); submodules, enums, common blocks and namelists are not generated here",
+            "enums, common blocks and namelists are not generated here; submodules only as the hand-shaped separate-module-procedure unit added to two of three cases",
             "source listings (sourcefile/* pages, div.hl) reproduce the raw source by design and are excluded",
         ],
     )
